@@ -62,12 +62,13 @@ GENS = {
     "sunflower": _p(l=st.integers(0, 4), c=st.integers(0, 3), extra=st.integers(1, 3)),
     "trivial_hypergraph": _p(n=st.integers(0, 6)),
     "random_simplicial_complex": _p(N=st.integers(0, 7), ps=st.lists(st.sampled_from([0, 0.3, 0.7, 1]), min_size=1, max_size=3)),
-    "flag_complex": _p(gn=st.integers(1, 7), gp=st.sampled_from([0, 0.3, 0.6, 1]), gedges=st.one_of(st.none(), st.lists(st.tuples(st.integers(0, 6), st.integers(0, 6)).map(list), max_size=14)), max_order=st.integers(1, 3), ps=st.one_of(st.none(), st.lists(st.sampled_from([0, 0.5, 1]), min_size=3, max_size=3))),
+    "flag_complex": _p(gn=st.integers(1, 7), gp=st.sampled_from([0, 0.3, 0.6, 1, 1]), gedges=st.one_of(st.none(), st.lists(st.tuples(st.integers(0, 6), st.integers(0, 6)).map(list), max_size=14)), max_order=st.sampled_from([1, 2, 3, 3]), ps=st.one_of(st.none(), st.lists(st.sampled_from([0, 0, 0.5, 1, 1]), min_size=3, max_size=3), st.lists(st.sampled_from([0, 0, 0.5, 1, 1]), min_size=3, max_size=3),
+                                     st.just([0, 1, 1]), st.just([1, 0, 1]))),
     "flag_complex_d2": _p(gn=st.integers(1, 7), gp=st.sampled_from([0, 0.3, 0.6, 1]), gedges=st.one_of(st.none(), st.lists(st.tuples(st.integers(0, 6), st.integers(0, 6)).map(list), max_size=14)), p2=st.sampled_from([None, 0, 0.5, 1])),
     "random_flag_complex": _p(N=st.integers(1, 7), p=st.sampled_from([0, 0.5, 1]), max_order=st.integers(1, 3)),
     "random_flag_complex_d2": _p(N=st.integers(1, 7), p=st.sampled_from([0, 0.5, 1])),
 }
-NAMES = sorted(GENS)
+NAMES = sorted(GENS) + ["flag_complex", "flag_complex"]  # the generator with the most interacting options is drawn three times as often
 
 
 @st.composite
